@@ -5,7 +5,28 @@
 open Model
 open Vutil
 
-let cipher = aes256
+(* the block cipher with its key schedule, and the password-derived key, are computed once per
+   distinct key / password (the model functions used below are the [_k] forms of Model.v, of
+   which encrypt / decrypt / ... are the instances at key_of password) *)
+let cipher_tbl : (byte list, byte list -> byte list) Hashtbl.t = Hashtbl.create 64
+let cipher k = match Hashtbl.find_opt cipher_tbl k with
+  | Some e -> e
+  | None -> let e = aes256 k in
+    if Hashtbl.length cipher_tbl > 5000 then Hashtbl.reset cipher_tbl;
+    Hashtbl.add cipher_tbl k e; e
+let key_tbl : (byte list, byte list) Hashtbl.t = Hashtbl.create 64
+let key_of_pw pw = match Hashtbl.find_opt key_tbl pw with
+  | Some k -> k
+  | None -> let k = key_of pw in
+    if Hashtbl.length key_tbl > 5000 then Hashtbl.reset key_tbl;
+    Hashtbl.add key_tbl pw k; k
+let encrypt c pw = encrypt_k c (key_of_pw pw)
+let decrypt c pw = decrypt_k c (key_of_pw pw)
+let decrypt_private_key c pw = decrypt_private_key_k c (key_of_pw pw)
+let encrypt_private_key = encrypt
+let genuine c pw = genuine_k c (key_of_pw pw)
+let prop_decrypt c pw = prop_decrypt_k c (key_of_pw pw)
+let prop_roundtrip c pw = prop_roundtrip_k c (key_of_pw pw)
 
 let res_of_string s : byte list outcome =
   if s = "err" then Err O
@@ -20,6 +41,9 @@ let string_of_res (r : byte list outcome) = match r with
   | OutOfFuel -> "fuel"
 
 let scheme_of = function "ed" -> Ed25519 | "sr" -> Sr25519 | "secp" -> Secp256k1 | s -> fail "scheme %s" s
+(* the harness prefixes Encode() of a decoded key with a byte naming its Go type *)
+let type_byte = function Ed25519 -> byte_of_int 1 | Sr25519 -> byte_of_int 2 | Secp256k1 -> byte_of_int 3
+let typed sc (r : byte list outcome) = match r with Ok k -> Ok (type_byte sc :: k) | x -> x
 
 let verdict ~prop ~model ~obs ~tags ?(finding="-") ?(nontrivial=true) why =
   { prop_ok = prop; model_eq = (model = obs); nontrivial; finding; tags;
@@ -48,7 +72,7 @@ let check inp obs =
     let ctb = bytes_of_hex ct and r = res_of_string res in
     let mct = encrypt cipher pw nonce msg in
     let model = (match mct with Ok c -> hex_of_bytes c ^ " " ^ string_of_res (decrypt cipher pw c) | _ -> "panic") in
-    let prop = prop_roundtrip cipher pw nonce msg ctb r in
+    let prop = prop_roundtrip cipher pw msg ctb r in
     verdict ~prop ~model ~obs ~tags:("enc," ^ size_tag (List.length msg) ^ (if pw = [] then ",pw-empty" else "")) "round trip"
   | [("flip" | "trunc" | "ext" | "wrongpw") as kind; nonce; msg; pw; a], [ct; res]
   | [("flip") as kind; nonce; msg; pw; a; _], [ct; res] ->
@@ -84,10 +108,10 @@ let check inp obs =
     let encb = bytes_of_hex enc and ctb = bytes_of_hex ct and r = res_of_string res in
     let mct = encrypt_private_key cipher pw nonce encb in
     let model = hex_of_bytes kb ^ " " ^ (match mct with
-      | Ok c -> hex_of_bytes c ^ " " ^ string_of_res (decrypt_private_key cipher pw c sc)
+      | Ok c -> hex_of_bytes c ^ " " ^ string_of_res (typed sc (decrypt_private_key cipher pw c sc))
       | _ -> "panic") in
     (* property: the key's encoding comes back, through a genuine ciphertext *)
-    let prop = valid_key sc kb && out_eqb mct (Ok ctb) && out_eqb r (Ok encb) && encb = kb in
+    let prop = valid_key sc kb && genuine cipher pw ctb kb && out_eqb r (typed sc (Ok encb)) && encb = kb in
     verdict ~prop ~model ~obs ~tags:("key-" ^ s) "private key round trip"
   | ["keydec"; s; nonce; raw; pw], [ct; res] ->
     let sc = scheme_of s in
@@ -95,12 +119,12 @@ let check inp obs =
     let r = res_of_string res in
     let mct = encrypt cipher pw nonce raw in
     let model = (match mct with
-      | Ok c -> hex_of_bytes c ^ " " ^ string_of_res (decrypt_private_key cipher pw c sc)
+      | Ok c -> hex_of_bytes c ^ " " ^ string_of_res (typed sc (decrypt_private_key cipher pw c sc))
       | _ -> "panic") in
     let valid = valid_key sc raw in
     (* in scope of the property only when [raw] is the encoding of a key: then it must come
        back.  Otherwise (not a key of the scheme) the outcome is compared with the model only. *)
-    let prop = if valid then out_eqb r (Ok raw) else true in
+    let prop = if valid then out_eqb r (typed sc (Ok raw)) else true in
     verdict ~prop ~model ~obs
       ~tags:("keydec-" ^ s ^ (if valid then "-valid" else if r = Panic then "-invalid-panic" else "-invalid-err"))
       "decoding a decrypted key"
@@ -108,9 +132,9 @@ let check inp obs =
     let sc = scheme_of s in
     let pw = bytes_of_hex pw and encb = bytes_of_hex enc and ctb = bytes_of_hex ct in
     let r = res_of_string res in
-    let m = decrypt_private_key cipher pw ctb sc in
+    let m = typed sc (decrypt_private_key cipher pw ctb sc) in
     let model = enc ^ " " ^ ct ^ " " ^ string_of_res m in
-    let prop = genuine cipher pw ctb encb && out_eqb r (Ok encb) in
+    let prop = genuine cipher pw ctb encb && out_eqb r (typed sc (Ok encb)) in
     verdict ~prop ~model ~obs ~tags:("file-" ^ s) "file round trip"
   | _ ->
     (* an Encrypt error or a shape we do not know: never expected *)
